@@ -126,10 +126,28 @@ def run(ctx, F):
                 lf_sites.append((b, bi, t))
     ctx.floor("Loader::find_file call sites in Context", len(lf_sites), 2)
     n_url = n_cand = 0
+    closure_lookup = None
     for b, bi, t in lf_sites:
         arg = sym.strip_transparent(S.operand(b, t["args"][1]))
         recv = sym.strip_transparent(S.operand(b, t["args"][0]))
         key = f"{b.def_}|Loader::find_file({sym.show(arg)[:60]})"
+        if b is not dff and b.raw.get("parent") == dff.def_:
+            # the lookup sits in a closure of do_find_file (`names.iter().map(..).find_map(|name| loader.find_file(&name) ..)`):
+            # the closure's parameter is the item of the iterator it is handed to
+            uses = [(b2, t2) for b2, t2 in dff.calls() if any(b.def_ in defs for defs in (t2.get("arg_defs") or []))]
+            item_ok = False
+            if len(uses) == 1 and arg[0] == "param" and arg[1] == 2 and (mir.callee_orig(uses[0][1]) or "") in FIRST_HIT_ADAPTERS:
+                it = sym.strip_transparent(S.operand(dff, uses[0][1]["args"][0]))
+                fl = flatten(it)
+                item_ok = ("param", 3, ()) in fl and "closure" in repr(it) and "Iterator::map" in repr(it) \
+                    and not any(x[0] == "call" and any(x[1].endswith(a) or (a + "<") in x[1] for a in ORDER_ADAPTERS) for x in fl)
+            if item_ok:
+                n_cand += 1
+                closure_lookup = (b, bi, t, uses[0])
+                ctx.ok("F4-lookup-provenance", "do_find_file|loop asks for names[i](base, name)", {"term": "item of " + sym.show(it)[:160], "adapter": mir.callee_orig(uses[0][1])})
+            else:
+                ctx.fail("F4-lookup-provenance", key, f"{b.def_} asks the loader for `{sym.show(arg)[:80]}`: not a candidate built from the table in table order", where=b.where(bi))
+            continue
         if b is not dff:
             ctx.fail("F4-lookup-provenance", key, f"{b.def_} asks the loader directly, outside do_find_file: candidate order is bypassed", where=b.where(bi))
             continue
@@ -145,6 +163,32 @@ def run(ctx, F):
         ctx.fail("F4-lookup-provenance", "do_find_file|one shortcut + one loop lookup", f"expected one shortcut lookup and one candidate-loop lookup, found {n_url}/{n_cand}", where=dff.where())
     # first hit returned: after the loop lookup succeeded with Some, no further `next`
     loop_sites = [(bi, t) for b, bi, t in lf_sites if b is dff and candidate_term(sym.strip_transparent(S.operand(dff, t["args"][1])))]
+    if closure_lookup is not None and not loop_sites:
+        cb, cbi, ct, (ub, ut) = closure_lookup
+        # first hit by construction of find_map / find / try_for_each-with-break: the closure must answer Some(..) when
+        # the loader found the file
+        some = None
+        for b2 in sorted(cb.reachable_blocks(ct["target"])) if ct.get("target") is not None else []:
+            tm = cb.blocks[b2]["term"]
+            if tm["k"] == "switch" and (tm.get("of_ty") or "").startswith("std::option::Option") and tm.get("discr_of") and "Loader::find_file" in repr(S.place(cb, tm["discr_of"])):
+                some = {n: tg for _, tg, n in tm["targets"]}.get("Some")
+        none_after = False
+        if some is not None:
+            for b2 in cb.reachable_blocks(some):
+                for st in cb.blocks[b2]["stmts"]:
+                    if st["k"] == "assign" and st["p"][0] == 0 and st["rv"]["k"] == "agg" and st["rv"].get("variant") == "None":
+                        none_after = True
+        if some is None:
+            ctx.anchor_lost("do_find_file first-hit", "no Some/None test of the loader result found in the lookup closure")
+        elif none_after:
+            ctx.fail("F3-first-hit", "do_find_file returns the first existing candidate", "the lookup closure can answer None after the loader found a file: the search continues to later candidates", where=cb.where(cbi))
+        else:
+            ctx.ok("F3-first-hit", "do_find_file returns the first existing candidate", {"by": mir.callee_orig(ut)})
+        adapters = [mir.callee_orig(tm) for b2, tm in dff.calls() if (mir.callee_orig(tm) or "").startswith("std::iter::Iterator::") and (mir.callee_orig(tm) or "").rsplit("::", 1)[-1] not in ("next", "map") and tm is not ut]
+        if adapters:
+            ctx.fail("F4-candidate-order", "do_find_file iterates names in table order", f"iterator adapters {adapters} change the candidate order", where=dff.where())
+        else:
+            ctx.ok("F4-candidate-order", "do_find_file iterates names in table order", None)
     if loop_sites:
         bi, t = loop_sites[0]
         tt = cfgutil.try_targets(dff, bi)
@@ -288,6 +332,7 @@ def url_literals(prog, body, param_filter=None):
     return pre, suf, css_url
 
 
+FIRST_HIT_ADAPTERS = ("std::iter::Iterator::find_map", "std::iter::Iterator::find", "std::iter::Iterator::try_for_each", "std::iter::Iterator::try_fold")
 ORDER_ADAPTERS = ("::rev", "::skip", "::step_by", "::take", "::skip_while", "::take_while", "::filter", "::chain", "::cycle", "::zip", "::peekable", "::last", "::nth")
 
 
